@@ -97,6 +97,13 @@ impl Number {
     /// converting the resulting BigRational into the most appropriate
     /// Number type.
     pub fn parse_rational(text: &str, radix: u32) -> Option<Number> {
+        // the denominator is an unsigned integer (R7RS 7.1.1); a signed one is no number, and
+        // reducing a fraction such as -2147483648/-1 overflows the 32 bit representation
+        if let Some((_, denom)) = text.split_once('/') {
+            if denom.starts_with(['+', '-']) {
+                return None;
+            }
+        }
         match Rational32::from_str_radix(text, radix) {
             Ok(num) => {
                 if num.is_integer() {
